@@ -27,7 +27,7 @@ ACT = {}
 
 
 def plan(tier):
-    return {"n_random": 360 if tier == "quick" else 6000, "time_s": 600 if tier == "quick" else 1750, "shrink_evals": 40 if tier == "quick" else 300}
+    return {"n_random": 1200 if tier == "quick" else 8000, "time_s": 600 if tier == "quick" else 1750, "shrink_evals": 40 if tier == "quick" else 300}
 
 
 @st.composite
